@@ -149,7 +149,7 @@ def _serialize_recursive(
         if data is primary:
             # The top-level schema is not a member of the definitions.
             return {"$ref": "#"}
-        return {"$ref": f"#/definitions/{data.__name__}"}
+        return {"$ref": f"#/definitions/{_pointer_segment(data.__name__)}"}
     if isinstance(data, Element):
         return _from_definitions(
             definitions,
